@@ -280,10 +280,12 @@ func (c *CqlClientConnection) incomingLoop() {
 func (c *CqlClientConnection) outgoingLoop() {
 	log.Debug().Msgf("%v: listening for outgoing frames...", c)
 	c.waitGroup.Add(1)
+	// capture the channel now: Close replaces the field with nil, and a receive on a nil channel would block forever
+	outgoingChan := c.outgoing
 	go func() {
 		abort := false
 		for !abort && !c.IsClosed() {
-			if outgoing, ok := <-c.outgoing; !ok {
+			if outgoing, ok := <-outgoingChan; !ok {
 				if !c.IsClosed() {
 					log.Error().Msgf("%v: outgoing frame channel was closed unexpectedly, closing connection", c)
 					abort = true
